@@ -326,6 +326,18 @@ class PoolGen:
         saved, self.ops = self.ops, []
         n = r.choice([2, 2, 3, 3, 4]) if not self.race else r.choice([3, 4, 5, 6, 7])
         once = False
+        if wallets and self.race and r.random() < 0.15:
+            # a withdrawal over HTTP whose client hangs up during the settlement, and the wallet's next withdrawal
+            w = r.choice(ACCTS)
+            saved.append({"op": "AddAccountBalance", "acct": w, "amt": 50})
+            self.withdraw(w)
+            self.withdraw(w)
+            reqs, self.ops = self.ops, saved
+            for op in [o for o in reqs if o["op"] == "Open"]:
+                self.emit(op)
+            reqs = [o for o in reqs if o["op"] != "Open"]
+            self.emit({"op": "Burst", "abandon": True, "reqs": reqs})
+            return
         if wallets and self.race and r.random() < 0.6:
             # several withdrawals of ONE wallet arriving one after the other while credit keeps coming in and
             # (sometimes) the first settlement fails: whatever the schedule, no more than the wallet held is paid
